@@ -167,11 +167,14 @@ def gen_signal(rng, min_len=1, max_len=80):
         elif kind == "ultra":
             # finite is finite: magnitudes near the ends of the double range, or an exponentially damped oscillation
             # whose late cycles are hundreds of orders of magnitude smaller than its first ones
-            m = rng.choice(["small", "large", "damped"])
+            m = rng.choice(["small", "large", "damped", "wide"])
             if m == "small":
                 sig = [x * 2.0 ** -600 for x in sig]
             elif m == "large":
                 sig = [x * 2.0 ** 500 for x in sig]
+            elif m == "wide":
+                # from the top of the double range to its bottom within one recording
+                sig = [x * 2.0 ** (480 - 16 * i) for i, x in enumerate(sig)][:66]
             else:
                 sig = [x * 2.0 ** (-12 * i) for i, x in enumerate(sig)][:70]
         else:
